@@ -185,6 +185,56 @@ def cache_traces(rng, n):
     return out[:n]
 
 
+def conc_histories(rng, n):
+    """Round 5 — OVERLAPPING admin checks on one admin cache while the directory is slow: calls are begun
+    one after the other, a begun call's directory question may be parked (H) until an explicit release,
+    the directory content (group membership) changes in between, the injected clock moves only while
+    nothing is in flight. (lifetime ms, events) — see harness/keymasterd/zz_verif_c08conc_test.go."""
+    u1, u2 = c.hexs("u1"), c.hexs("u2")
+    fixed = [
+        # former administrator: verdict cached, membership revoked, entry expired; one refresh parked, a second
+        # check (a real GET /users/) overlaps it
+        (300, ["d%s:1" % u1, "b%s:N:i" % u1, "d%s:0" % u1, "a300", "b%s:H:i" % u1, "b%s:N:l" % u1, "r1", "b%s:N:i" % u1]),
+        (300, ["d%s:1" % u1, "b%s:N:l" % u1, "d%s:0" % u1, "a301", "b%s:H:l" % u1, "b%s:H:i" % u1, "b%s:N:l" % u1, "r2", "r1"]),
+        # revoked while the refresh is in flight
+        (300, ["d%s:1" % u1, "b%s:N:i" % u1, "a300", "b%s:H:i" % u1, "d%s:0" % u1, "b%s:N:l" % u1, "r1", "b%s:N:i" % u1]),
+        # granted: the overlapping check may say no or yes, never a stale yes
+        (300, ["d%s:0" % u1, "b%s:N:i" % u1, "d%s:1" % u1, "a300", "b%s:H:i" % u1, "b%s:N:i" % u1, "r1", "b%s:N:l" % u1]),
+        # inside the lifetime the cached verdict is fine, one ms later it is not
+        (300, ["d%s:1" % u1, "b%s:N:i" % u1, "d%s:0" % u1, "a299", "b%s:H:i" % u1, "b%s:N:l" % u1, "a1", "b%s:H:i" % u1,
+               "b%s:N:l" % u1, "b%s:H:l" % u1, "r5", "r3"]),
+        # two users, refreshes parked crosswise
+        (300, ["d%s:1" % u1, "d%s:1" % u2, "b%s:N:i" % u1, "b%s:N:i" % u2, "d%s:0" % u1, "a1000", "b%s:H:i" % u1, "b%s:H:i" % u2,
+               "b%s:N:l" % u1, "b%s:N:l" % u2, "r3", "r2"]),
+        # first sight of a user with the question parked
+        (50, ["d%s:1" % u2, "b%s:H:i" % u2, "b%s:H:l" % u2, "b%s:N:i" % u2, "d%s:0" % u2, "r0", "r1", "a50", "b%s:N:l" % u2]),
+    ]
+    out = list(fixed)
+    while len(out) < n:
+        life = rng.choice([300, 300, 1000, 50])
+        evs, parked, begun = [], [], 0
+        for u in (u1, u2):
+            evs.append("d%s:%d" % (u, rng.randint(0, 1)))
+        for _ in range(rng.randint(6, 18)):
+            k = rng.random()
+            if k < 0.22 and not parked:
+                evs.append("a%d" % rng.choice([1, life - 1, life, life + 1, 2 * life, 10]))
+            elif k < 0.40:
+                evs.append("d%s:%d" % (rng.choice([u1, u1, u2]), rng.randint(0, 1)))
+            elif k < 0.80 or not parked:
+                hold = rng.random() < 0.5 and len(parked) < 3
+                evs.append("b%s:%s:%s" % (rng.choice([u1, u1, u2]), "H" if hold else "N", rng.choice("iil")))
+                if hold:
+                    parked.append(begun)   # parks only if the call really asks the directory: r<k> of a call
+                begun += 1                 # that did not park is answered 'r-'
+            else:
+                evs.append("r%d" % parked.pop(rng.randrange(len(parked))))
+        rng.shuffle(parked)
+        evs += ["r%d" % k for k in parked]
+        out.append((life, evs))
+    return out[:n]
+
+
 # one representative request per operation (target: another user / an automation identity)
 REP = [("view", "-", "bob", "-", 0, 0), ("mu2f", "Delete", "bob", "2", 0, 0), ("mtotp", "Disable", "bob", "21", 0, 0),
        ("totpgen", "-", "bob", "-", 0, 0), ("totpval", "-", "bob", "-", 1, 1), ("u2fbeg", "-", "bob", "-", 0, 0),
@@ -316,22 +366,25 @@ def run(ctx):
     reqs = matrix(ctx)
     traces = cache_traces(ctx.rng, 150 if ctx.quick() else 2500)
     seqs = sequences(ctx)
+    concs = conc_histories(ctx.rng, 90 if ctx.quick() else 900)
     if ctx.replay:
         rp = json.load(open(ctx.replay))
         got = lambda k: [v["replay"][k] for v in rp.get("violations", []) if k in v.get("replay", {})]
         rr, sq = got("request"), got("sequence")
         tr = [(t["lifetime_ms"], t["events"]) for t in got("trace")]
-        if rr or tr or sq:
-            reqs, traces, seqs = rr, tr, sq
+        cc = [(t["lifetime_ms"], t["events"]) for t in got("overlap")]
+        if rr or tr or sq or cc:
+            reqs, traces, seqs, concs = rr, tr, sq, cc
         else:
-            reqs, traces, seqs = reqs[:200], traces[:20], seqs[:50]
+            reqs, traces, seqs, concs = reqs[:200], traces[:20], seqs[:50], concs[:20]
     pre = prelude()
     slines, sindex = [], []   # sindex: (sequence number, step number or None) per line
     for qi, sq in enumerate(seqs):
         ls = seq_lines(sq)
         slines += ls
         sindex += [(qi, None)] + [(qi, i) for i in range(len(sq["steps"]))] + [(qi, None)]
-    ops = pre + [line(r) for r in reqs] + ["cseq %d %s" % (life, ",".join(evs)) for life, evs in traces] + slines
+    clines = ["cconc %d %s" % (life, ",".join(evs)) for life, evs in concs]
+    ops = pre + [line(r) for r in reqs] + ["cseq %d %s" % (life, ",".join(evs)) for life, evs in traces] + slines + clines
     impl, log, rc = c.run_harness(ctx, "cmd/keymasterd", "C08", ops)
     if rc != 0 or len(impl) != len(ops):
         ctx.broken.append("harness TestVerifC08 did not complete (exit %d, %d/%d lines)" % (rc, len(impl), len(ops)))
@@ -339,6 +392,18 @@ def run(ctx):
     model = c.run_driver(ctx, "model", ops)
     n0, n1 = len(pre), len(pre) + len(reqs)
     n2 = n1 + len(traces)
+    n3 = n2 + len(slines)
+    # overlapping calls: a history in which a parked question outlived the LDAP client's patience (overloaded
+    # machine) says nothing about the property; a fixture that does not start is a harness failure
+    conc_skipped = 0
+    for i in range(n3, len(ops)):
+        if impl[i] == "slow":
+            conc_skipped += 1
+            impl[i] = model[i]
+        elif impl[i].split()[:1] in (["no-directory"], ["no-clock"], ["stuck"], ["bad-op"]):
+            ctx.broken.append("overlapping-calls fixture failed on %s: %s" % (ops[i], impl[i]))
+    if concs and conc_skipped * 2 > len(concs):
+        ctx.broken.append("overlapping-calls stream: %d of %d histories ran into the directory client's timeout" % (conc_skipped, len(concs)))
     is_sreq = [False] * len(ops)
     for j, (qi, si) in enumerate(sindex):
         if si is not None and "adv" not in seqs[qi]["steps"][si]:
@@ -366,7 +431,24 @@ def run(ctx):
                                                        c.hexs(r["target"]), cls, " ".join(effs) if effs else "-"))
         else:
             jops.append(slines[j])
+    for (life, evs), l in zip(concs, impl[n3:]):
+        jops.append("jk %d %s %s" % (life, ",".join(evs), ",".join(l.split()) or "-"))
     verdicts = c.run_driver(ctx, "judge", jops)
+    conc_calls = conc_parked = conc_overlapped = 0
+    for (life, evs), l, v in zip(concs, impl[n3:], verdicts[n3:]):
+        toks = l.split()
+        conc_calls += sum(1 for t in toks if t[0] == "b")
+        conc_parked += toks.count("bp")
+        inflight = 0
+        for t in toks:  # calls that started while another call was parked inside the directory
+            if t[0] == "b" and inflight:
+                conc_overlapped += 1
+            inflight += (t == "bp") - (t in ("r0", "r1"))
+        if v != "ok":
+            c.add_violation(ctx, "overlap:" + v.split()[1] if len(v.split()) > 1 else "overlap", (
+                "overlapping IsAdminUser / GET /users/ calls on one admin cache (lifetime %d ms), directory parking the "
+                "questions marked H: %s: real verdicts %s; judge: %s" % (life, ",".join(evs), l, v)),
+                {"overlap": {"lifetime_ms": life, "events": evs}, "impl": l, "judge": v, "op_line": "cconc %d %s" % (life, ",".join(evs))})
     # sequences: every step judged with the administrator status derived from config + directory history
     seq_steps = seq_viol = 0
     seq_classes = Counter()
@@ -431,7 +513,7 @@ def run(ctx):
     for (life, evs), l in zip(traces, impl[n1:n2]):
         hits += sum(1 for t in l.split() if t.startswith("g") and t.endswith("1"))
     ctx.coverage.update({
-        "evaluations": len(reqs) + cache_calls + seq_steps,
+        "evaluations": len(reqs) + cache_calls + seq_steps + conc_calls,
         "sequences": len(seqs), "sequence_steps": seq_steps, "sequence_status_classes": dict(seq_classes),
         "sequence_step_after_own_role_cert_request": dict(seq_admin_after_role),
         "sequence_rule": "all ordered pairs (op1, op2) of the 14 operations by the same actor for each of 4 actor roles on ONE "
@@ -439,6 +521,11 @@ def run(ctx):
                          "every level and with the directory down at either step, expiry-boundary triples, random multi-actor "
                          "histories; every step judged with admin status derived from configuration + directory history (backedB)",
         "requests": len(reqs), "cache_traces": len(traces), "cache_calls": cache_calls,
+        "overlap_histories": len(concs), "overlap_calls": conc_calls, "overlap_calls_parked_in_directory": conc_parked,
+        "overlap_calls_begun_while_another_was_parked": conc_overlapped, "overlap_histories_skipped_slow": conc_skipped,
+        "overlap_rule": "calls begun one after the other on one admin cache against a private LDAPS directory whose search handler "
+                        "parks chosen questions until released; membership changes in between; clock moves only while nothing is in "
+                        "flight; every verdict judged with blackboxOK against what the directory offered so far",
         "distinct_nontrivial": len(cells),
         "rule": "whole matrix (actor role incl. directory-down × session level × target × operation × action × index); "
                 "non-trivial = distinct (op, action, actor, directory state, level, target kind) cells whose request was "
